@@ -46,7 +46,7 @@ def judge_msg(rec, opts):
         return []
     out = []
     kinds = "+".join(f"{it['k']}:{it['f']}" for it in rec["items"])[:60]
-    for name in ("n", "cx", "pl", "m"):
+    for name in ("n", "cx", "pl", "m", "translations"):
         for v in CONFUSED:
             data = {"m": "Hello", "pl": "Hellos", "cx": "vctx", "n": 2, "yes": True, "no": False}
             data[name] = v
